@@ -121,6 +121,18 @@ def job_map_parameters(res, pid):
                 fs_ = factors(d['b'])
                 if d['a'] == ('fp', 2.0, 64) and ('local', S) in fs_ and len(fs_) == 3: ok = True
                 why = 'numerator %s, factors of the divisor %s' % (d['a'], fs_)
+        # which option selects what: the map's type operand comes from getFPType(), its tracking-model operand from getFPTrack() (operands of the real call, followed back through casts)
+        if fp:
+            def origin(v, depth=0):
+                if depth > 8 or not (isinstance(v, tuple) and v[0] == 'local') or v[1] not in defs: return str(v)
+                d = defs[v[1]]
+                if d['op'] in ('call', 'invoke') and d['callee'][0] == 'global': return demangle({d['callee'][1]}).get(d['callee'][1], d['callee'][1]).split('(')[0]
+                if d['op'] in ('trunc', 'zext', 'sext', 'bitcast', 'freeze'): return origin(d['a'], depth + 1)
+                return d['op']
+            o_t = origin(fp[-1][2]['args'][5][1]); o_k = origin(fp[-1][2]['args'][6][1])
+            ok_t = o_t.endswith('ProgramOptions::getFPType') and o_k.endswith('ProgramOptions::getFPTrack')
+            res.obs.append(Ob('main: the Fokker-Planck map is built with the FPType option as its type and the FPTrack option as its tracking model (type from %s, tracking model from %s)' % (o_t, o_k), 'holds' if ok_t else 'violated', key='main-fp-options',
+                              cex=None if ok_t else {'replay': 'structural', 'type_from': o_t, 'track_from': o_k}))
         res.obs.append(Ob('main: e1 is computed as 2.0 / (steps * x * y) - numerator 2, three factors, one of them the step count %s (%s)' % (S, why), 'holds' if ok else 'violated', key='main-e1-constant'))
     if not reached: res.obs.append(Ob('the set-up slice reaches the map constructions', 'inconclusive', key='setup-engine'))
     witness(res, 'map constructions reached on %d path(s); %d linear RF constructions, %d Fokker-Planck constructions examined' % (reached, seen_lin, seen_fp), [], z3.BoolVal(reached > 0 and (seen_lin > 0 if pid == 'C03' else seen_fp > 0)))
